@@ -145,7 +145,7 @@ func c9E2E(r *Rng) {
 	ctx.SetTimeout(d)
 	H := ctx.RequestHeaders()
 	clientOp, cid := H["_opid"], ctx.CorrelationID()
-	want := d / time.Millisecond * time.Millisecond
+	want := wireTimeout(d)
 	c9Seen[clientOp] = true
 	before := ctx.ResponseHeaders()
 
